@@ -97,3 +97,19 @@ Print Assumptions T10b_trailer_roundtrip.
 Theorem T10c_orders_agree : META_WRITE_ORDER = META_READ_ORDER /\ META_WRITE_MAGIC = MTBL_MAGIC.
 Proof. split; reflexivity. Qed.
 Print Assumptions T10c_orders_agree.
+
+(* T10e: the trailer determines the statistics: two records of statistics with the same
+   512 bytes are the same record (so whatever mtbl_info prints is a function of the
+   truth, and a damaged counter cannot hide behind another record's bytes); the length is
+   512 for every record, in range or not *)
+Theorem T10e_trailer_injective : forall m m', meta_small m -> meta_small m' ->
+  metadata_write m = metadata_write m' -> m = m'.
+Proof.
+  intros m m' H H' E. destruct (T10b_trailer_roundtrip m H) as [D _].
+  rewrite E in D. destruct (T10b_trailer_roundtrip m' H') as [D' _]. congruence.
+Qed.
+Print Assumptions T10e_trailer_injective.
+
+Theorem T10e_trailer_length : forall m, len (metadata_write m) = MTBL_METADATA_SIZE.
+Proof. exact metadata_write_len. Qed.
+Print Assumptions T10e_trailer_length.
